@@ -177,6 +177,19 @@ CHECKS = {
         "Hypothesis schedule generation on a virtual clock against a simulated NCP; reference outcome function + leak invariants",
         "DESIGN.md 4/C17",
     ),
+    "C20": (
+        "exploration",
+        "Real threads and real event loops: an owner loop in bellows' EventLoopThread (or a raw loop thread for the "
+        "stopped-not-closed state), callers on the owner loop, the main-thread loop and a second loop thread. Hypothesis "
+        "generates scripts of 1-4 bursts of 1-200 concurrent calls over six method kinds and three owner-loop states. Every "
+        "wrapped body records its thread: it must be the owner's; coroutine results/exceptions must reach the caller unchanged "
+        "and resume on the caller's loop; cross-thread plain calls return None at once, run exactly once in per-caller FIFO "
+        "order, non-None returns and raised exceptions surface in the owner loop's exception handler; owner-loop calls run "
+        "directly; non-callables raise TypeError; on a closed loop calls return None quickly without executing.",
+        "Thread scheduling is not owned by the harness (oracles are timing-insensitive); a 20 s guard per script yields inconclusive, never a violation.",
+        "Hypothesis call-script generation on real threads; thread-identity / relay / exactly-once / FIFO oracles",
+        "DESIGN.md 4/C20",
+    ),
 }
 
 NOT_YET = "check not built yet in this session (planned, see DESIGN.md section 4)"
